@@ -39,6 +39,8 @@ FirstBad(fl, xs, i) == IF i > Len(xs) THEN 0
                        ELSE IF ~Admissible(fl, xs[i]) THEN i ELSE FirstBad(fl, xs, i + 1)
 
 Prefix(xs, n) == SubSeq(xs, 1, n)
+RECURSIVE Flatten(_)
+Flatten(ss) == IF ss = <<>> THEN <<>> ELSE ss[1] \o Flatten(Tail(ss))
 Min(a, b) == IF a <= b THEN a ELSE b
 
 RECURSIVE Diffs(_, _)
@@ -77,6 +79,8 @@ Step(fl, h, act) ==
                                  THEN [h EXCEPT ![r] = [a |-> BagOfSeq(act.xs), b |-> EmptyBag]]
                                  ELSE h        \* the failed constructor yields no value
       [] act.a = "clone"      -> [h EXCEPT ![act.q] = h[r]]
+      \* a parallel reduction of chunks (any schedule): the register represents the union of the chunks
+      [] act.a = "par_reduce" -> [h EXCEPT ![r] = [a |-> BagOfSeq(Flatten(act.chunks)), b |-> EmptyBag]]
       [] act.a = "add_assign" -> [h EXCEPT ![r] = [a |-> h[r].a (+) h[act.q].a, b |-> h[r].b (+) h[act.q].b]]
       [] act.a = "add"        -> [h EXCEPT ![act.t] = [a |-> h[r].a (+) h[act.q].a, b |-> h[r].b (+) h[act.q].b]]
       \* paired: observations are differences
